@@ -36,6 +36,8 @@ ImplOf(e) ==
     [] e.op = "iter" -> ImplIter
     [] e.op = "items" -> ImplItems
     [] e.op = "approx" -> ImplApprox(e.k)
+    [] e.op = "approxfar" -> ImplApproxFar(e.k)
+    [] e.op = "approxwide" -> ImplApproxWide(e.k)
     [] e.op = "unload" -> ImplUnload
     [] e.op = "sync" -> ImplSync
     [] e.op = "setmeta" -> ImplSetMeta(e.m)
@@ -98,6 +100,8 @@ Judge(e) ==
   /\ Chk((GLive /\ e.op = "items") => reply' = RPairs({<<k, g.model[k]>> : k \in DOMAIN g.model}),
          "C37:items")
   /\ Chk((GLive /\ e.op = "approx") => reply' = ExpectApprox(e.k), "C37:approx")
+  /\ Chk((GLive /\ e.op = "approxfar") => reply' = RNone, "C37:approx-outside-the-tolerance")
+  /\ Chk((GLive /\ e.op = "approxwide") => reply' = ExpectApprox(e.k), "C37:approx-with-given-tolerance")
   /\ Chk((g.mode = "none" /\ g.p.exists /\ e.op \in {"read", "edit"}) => reply' = Ok, "C36:reopen")
   /\ Chk((g.mode = "none" /\ g.p.exists /\ e.op \in {"read", "edit"} /\ reply' = Ok)
             => mmeta' = g.p.meta, "C36:meta")
